@@ -12,9 +12,9 @@
 From Coq Require Import String.
 From Coq Require Import List Ascii ZArith Bool.
 From CGV Require Import Base.PyBase Base.PyVal Base.NxGraph Gen.HydroGen Hydro.Hydrogens Hydro.Squash
-     Hydro.SquashDefs Hydro.SquashProofs Hydro.SquashTotal.
+     Hydro.SquashDefs Hydro.SquashProofs Hydro.SquashTotal Hydro.ShareProofs.
 From CGV Require Hydro.HydroCheck Hydro.SquashCheck.
-From CGV Require Resolve.GraphOps Resolve.CopyProofs.
+From CGV Require Resolve.GraphOps Resolve.CopyProofs Resolve.Bonding.
 Import ListNotations.
 Open Scope Z_scope.
 
@@ -93,6 +93,36 @@ Theorem C10_squash_total_resolver : forall fd legacy meta m1 fg1 m2 fg2, CopyPro
              (length g' + length (squash_plan [] (bang_items m2)) = length m2)%nat.
 Proof. exact squash_total_resolver. Qed.
 
+(** THE METAMORPHIC CLAUSE on the model, for one shared pair (any other atoms, `$` bonds and
+    fragment-internal bonds around it): if the bonded graph [gs] of the overlapping description relates to
+    the bonded graph [gd] of the disjoint one by [shares] (one extra node v', the copy of v next to u,
+    instead of the cut bond u-v; a `!` bond v'~v; everything else identical), then squash_atoms gs is gd
+    through the explicit atom map [phi v v'] — a bijection on nodes preserving adjacency — whichever
+    of the two copies is kept; all other atoms keep their attributes. *)
+Theorem C10_share_vs_cut_one : forall gd gs u v v' a b g', wf_graph gd -> wf_graph gs -> shares gd gs u v v' ->
+  bang_items gs = [(a, b)] -> (a = v' /\ b = v) \/ (a = v /\ b = v') -> squash_atoms gs = Ok g' ->
+  (forall y, has_node g' y = true -> has_node gd (phi v v' y) = true) /\
+  (forall k, has_node gd k = true -> exists y, has_node g' y = true /\ phi v v' y = k) /\
+  (forall y x, has_node g' y = true -> has_node g' x = true -> phi v v' y = phi v v' x -> y = x) /\
+  (forall y x, has_node g' y = true -> has_node g' x = true ->
+     has_edge g' y x = has_edge gd (phi v v' y) (phi v v' x)) /\
+  (forall y, y <> v -> y <> v' -> nattrs g' y = nattrs gs y).
+Proof. exact share_vs_cut_one. Qed.
+Example C10_share_vs_cut_one_nonvacuous :
+  wf_graph gd_ex /\ wf_graph gs_ex /\ shares gd_ex gs_ex 0 1 2 /\ bang_items gs_ex = [(2, 1)] /\
+  exists g', squash_atoms gs_ex = Ok g' /\ node_keys g' = [0; 2; 3] /\ neighbors g' 2 = [0; 3] /\
+             node_get g' 2 (S "fragid") = Some (VList [VInt 0; VInt 1]).
+Proof. exact share_vs_cut_one_nonvacuous. Qed.
+(** one level up (bond creation, Resolve/Bonding.v with the generated [compatible]): a single descriptor pair
+    between two coarse nodes makes exactly one bond — u-v for the `$` pair, v'-v for the `!` pair *)
+Theorem C10_single_pair_bond : forall legacy arom A B x y c t o, A <> B -> (c = "$"%char \/ c = "!"%char) ->
+  Bonding.bond_order arom x y (c :: t) = Ok o ->
+  Bonding.edges_from_bonding legacy arom [(A, B, 1)] [(A, [(x, [c :: t])]); (B, [(y, [c :: t])])] []
+  = Ok ([(A, [(x, [])]); (B, [(y, [])])],
+        [{| Bonding.b_src := A; Bonding.b_tgt := B; Bonding.b_u := x; Bonding.b_v := y; Bonding.b_d1 := c :: t;
+            Bonding.b_d2 := c :: t; Bonding.b_order := o |}]).
+Proof. exact single_pair_bond. Qed.
+
 (** non-vacuity: a chain of three fragments sharing one atom, next to an ordinary `$` bond *)
 Example C10_nonvacuous :
   wf_graph g_chain /\ length (bang_items g_chain) = 2%nat /\ length (squash_plan [] (bang_items g_chain)) = 2%nat /\
@@ -131,3 +161,5 @@ Print Assumptions C10_refuted_stale_hcount_aromatic.
 Print Assumptions C10_squash_total.
 Print Assumptions C10_hypotheses_decidable.
 Print Assumptions C10_squash_total_resolver.
+Print Assumptions C10_share_vs_cut_one.
+Print Assumptions C10_single_pair_bond.
